@@ -18,7 +18,7 @@ from C16 import split_file
 PID = "C17"
 CLUSTER = "Reader"
 PROPS = "props/C17.v"
-N_QUICK = 1750
+N_QUICK = 1900
 N_THOROUGH = 20000
 RULE = ("file shapes H in 0..4 pragma lines x column line absent/last/followed by 0..5 data lines, with one defect at "
         "every position (each pragma line: missing separator, empty key, empty value, duplicate of an earlier key, "
@@ -171,7 +171,7 @@ def _with_channel(cases):
                 ch = "path"         # the path entry point changed: read more files through it
         if c["shape"].get("stream") in ("blank-lines", "linebreak-like"):
             ch = ("path", "gz")[k % 2]
-        if "switch_at" in c:
+        if "switch_at" in c or "lr" in c:
             ch = "lines"
         out.append(dict(c, channel=ch))
     return out
@@ -194,8 +194,25 @@ def _switch_cases():
     return out
 
 
+def _line_reader_cases():
+    """LineReader over a text (io.StringIO or a real file handle): k lines consumed with read_line(), then
+    MafHeader.from_line_reader - every pragma-line error must carry the line's number in the reader's input"""
+    out = []
+    blocks = (["#nosep", "#version v1"], ["#version v1", "#", "#version v1"], ["# v", "#k ", "#sort.order bogus"],
+              ["#k v", "#k w", "#nosep"])
+    for i, block in enumerate(blocks):
+        for head in ([], ["title"], ["p1", "p2", "p3"], ["#pre v", "#pre2"]):
+            for pre in sorted({0, len(head), max(0, len(head) - 1), len(head) + 1}):
+                for tail in ([], ["a\tb", "1"]):
+                    out.append({"lines": head + block + tail, "override": None,
+                                "lr": {"pre": pre, "handle": ("stringio", "file")[(i + pre + len(tail)) % 2]},
+                                "shape": {"stream": "linereader", "H": len(block), "col": bool(tail),
+                                          "data": max(0, len(tail) - 1), "defect": "hdr+hdr"}})
+    return out
+
+
 def generate(rng, n):
-    out = (_switch_cases() + R.linebreak_like_cases() + _blank_line_files() + _multi_defect() + _grid() + _typed_grid()
+    out = (_line_reader_cases() + _switch_cases() + R.linebreak_like_cases() + _blank_line_files() + _multi_defect() + _grid() + _typed_grid()
            + [c for c in R.typed_special_cases() if c["shape"]["defect"] in ("format-text", "cr-text")])
     while len(out) < n:
         out.append(R.gen_reader_case(rng, rng.choice(["valid", "defect", "defect", "adversarial"])))
@@ -207,10 +224,15 @@ def shrink(case):
 
 
 def to_model(case):
+    if "lr" in case:
+        return R.wire_line_reader(case["lines"], "Silent", 0, True, case["lr"]["pre"])
     return [9] + [R.wire_reader(case["lines"], m, case["override"]) for m in ("Silent", "Strict")]
 
 
 def run_impl(case):
+    if "lr" in case:
+        o = R.impl_line_reader(case["lines"], "Silent", 0, True, case["lr"]["pre"], case["lr"]["handle"])
+        return {"lr": {k: v for k, v in o.items() if not k.startswith("_")}}
     ch = case.get("channel", "lines")
     if ch != "lines" and not R.file_safe(case["lines"]):
         ch = "lines"        # a shrunk or edited case that no longer fits a file
@@ -225,10 +247,37 @@ def comparable(obs):
 
 
 def from_model(case, sx):
+    if "lr" in case:
+        return {"lr": R.dec_line_reader(sx)}
     return {"Silent": R.dec_reader(sx[0]), "Strict": R.dec_reader(sx[1])}
 
 
+def _lr_oracle(case, obs):
+    out = []
+    lines = case["lines"]
+    start = 0
+    for _ in range(case["lr"]["pre"]):
+        if start < len(lines) and lines[start] != "":
+            start += 1
+    k = start
+    while k < len(lines) and lines[k].startswith("#"):
+        k += 1
+    _, diags = R.spec_header(lines[start:k])
+    expected = [[c, n + start] for c, n in diags]       # physical: the line's 1-based number in the reader's input
+    res = obs["lr"]["header"]["res"]
+    if res[0] != "ok":
+        return ["linereader-silent-failed %r" % (res[1],)]
+    got = [e for e in res[1]["errs"] if e[0] in R.HEADER_LINE_CODES]
+    if got != expected:
+        out.append("linereader-pragma-line-errors %r expected %r" % (got[:4], expected[:4]))
+    if obs["lr"]["lineno"] != k:
+        out.append("linereader-line-number %r expected %d" % (obs["lr"]["lineno"], k))
+    return out
+
+
 def oracle(case, obs):
+    if "lr" in case:
+        return _lr_oracle(case, obs)
     out = []
     hl, col, data = split_file(case["lines"])
     H = len(hl)
@@ -312,6 +361,8 @@ def signature(case, violation):
 
 
 def classify(case, obs):
+    if "lr" in case:
+        return "linereader/%s/pre=%d" % (case["lr"]["handle"], min(case["lr"]["pre"], 3))
     sh = case.get("shape", {})
     if obs is None:
         return "%s/error" % sh.get("stream")
@@ -322,4 +373,7 @@ def classify(case, obs):
 
 
 def nontrivial(case, obs):
+    if "lr" in case:
+        r = obs["lr"]["header"]["res"]
+        return r[0] == "ok" and any(e[1] is not None for e in r[1]["errs"])
     return any(e[1] is not None for e in obs["Silent"]["errs"])
